@@ -5,7 +5,13 @@ type nat =
 | O
 | S of nat
 
+val fst : ('a1 * 'a2) -> 'a1
+
 val snd : ('a1 * 'a2) -> 'a2
+
+val length : 'a1 list -> nat
+
+val app : 'a1 list -> 'a1 list -> 'a1 list
 
 type comparison =
 | Eq
@@ -13,6 +19,8 @@ type comparison =
 | Gt
 
 val add : nat -> nat -> nat
+
+val leb : nat -> nat -> bool
 
 type positive =
 | XI of positive
@@ -22,6 +30,13 @@ type positive =
 type n =
 | N0
 | Npos of positive
+
+module Nat :
+ sig
+  val eqb : nat -> nat -> bool
+
+  val leb : nat -> nat -> bool
+ end
 
 module Pos :
  sig
@@ -62,6 +77,8 @@ module Coq_Pos :
 
   val iter : ('a1 -> 'a1) -> 'a1 -> positive -> 'a1
 
+  val pow : positive -> positive -> positive
+
   val compare_cont : comparison -> positive -> positive -> comparison
 
   val compare : positive -> positive -> comparison
@@ -71,6 +88,8 @@ module Coq_Pos :
   val coq_Nsucc_double : n -> n
 
   val coq_Ndouble : n -> n
+
+  val coq_land : positive -> positive -> n
 
   val coq_lxor : positive -> positive -> n
 
@@ -105,15 +124,25 @@ module N :
 
   val ltb : n -> n -> bool
 
+  val div2 : n -> n
+
+  val pow : n -> n -> n
+
   val pos_div_eucl : positive -> n -> n * n
 
   val div_eucl : n -> n -> n * n
 
+  val div : n -> n -> n
+
   val modulo : n -> n -> n
+
+  val coq_land : n -> n -> n
 
   val coq_lxor : n -> n -> n
 
   val shiftl : n -> n -> n
+
+  val shiftr : n -> n -> n
 
   val testbit : n -> n -> bool
 
@@ -126,7 +155,17 @@ val nth : nat -> 'a1 list -> 'a1 -> 'a1
 
 val nth_error : 'a1 list -> nat -> 'a1 option
 
+val concat : 'a1 list list -> 'a1 list
+
 val map : ('a1 -> 'a2) -> 'a1 list -> 'a2 list
+
+val fold_right : ('a2 -> 'a1 -> 'a1) -> 'a1 -> 'a2 list -> 'a1
+
+val filter : ('a1 -> bool) -> 'a1 list -> 'a1 list
+
+val firstn : nat -> 'a1 list -> 'a1 list
+
+val skipn : nat -> 'a1 list -> 'a1 list
 
 val seq : nat -> nat -> nat list
 
@@ -146,11 +185,35 @@ type 'a outcome =
 
 val obind : 'a1 outcome -> ('a1 -> 'a2 outcome) -> 'a2 outcome
 
+val omap : ('a1 -> 'a2) -> 'a1 outcome -> 'a2 outcome
+
+val assert_ok : bool -> unit outcome
+
 val nth_ok : 'a1 list -> nat -> 'a1 outcome
+
+type mode =
+| Release
+| Checked
+
+val wrap : n -> n -> n
+
+val u8 : n -> n
+
+val u32 : n -> n
+
+val rem_ok : n -> n -> n outcome
 
 val rangeN : nat -> n list
 
 val xsum : n list -> n
+
+val mAX_SOURCE_SYMBOLS_PER_BLOCK : n
+
+val pLAN_CACHE_CAPACITY : n
+
+val mAX_TRANSFER_LENGTH : n
+
+val eSI_LIMIT : n
 
 val pOLY : n
 
@@ -165,6 +228,16 @@ val sel : bool -> n -> n
 val pmul : n -> n -> n
 
 val ppow2 : nat -> n
+
+val be : nat -> n -> n list
+
+val payload_id_wire : n -> n -> n list
+
+val oti_wire : n -> n -> n -> n -> n -> n list
+
+val cdiv : n -> n -> n
+
+val oti_validb : n -> n -> n -> n -> bool
 
 val oCT_EXP : n list
 
@@ -200,12 +273,111 @@ val octet_mul_hi_table : n list list
 
 val tbl2 : n list list -> n -> n -> n outcome
 
+val pid_new : n -> n -> (n * n) outcome
+
+val pid_ser : (n * n) -> n list
+
+val pid_deser : n list -> (n * n) outcome
+
+val slice_from : 'a1 list -> nat -> 'a1 list outcome
+
+val pkt_ser : ((n * n) * n list) -> n list
+
+val pkt_deser : n list -> ((n * n) * n list) outcome
+
+type oti = (((n * n) * n) * n) * n
+
+val oti_ser : oti -> n list
+
+val oti_deser : n list -> oti outcome
+
+val ceil_div64 : n -> n -> n
+
+val int_div_ceil_pinned : n -> n -> n
+
+val oti_new_gen :
+  (n -> n -> n) -> mode -> n -> n -> n -> n -> n -> oti outcome
+
+val oti_new_pinned : mode -> n -> n -> n -> n -> n -> oti outcome
+
+val oti_new_fixed : mode -> n -> n -> n -> n -> n -> oti outcome
+
+val oti_new : mode -> n -> n -> n -> n -> n -> oti outcome
+
+val assoc_get : n -> (n * 'a1) list -> 'a1 option
+
+val assoc_remove : n -> (n * 'a1) list -> (n * 'a1) list
+
+val assoc_insert : n -> 'a1 -> (n * 'a1) list -> (n * 'a1) list
+
+val keys : (n * 'a1) list -> n list
+
+type 'plan pc =
+| Idle
+| Missed of n
+| Generated of n * 'plan
+
+val get_pc : nat -> (nat * 'a1 pc) list -> 'a1 pc
+
+val set_pc : nat -> 'a1 pc -> (nat * 'a1 pc) list -> (nat * 'a1 pc) list
+
+type 'plan sysstate = { plans : (n * 'plan) list; order : n list;
+                        threads : (nat * 'plan pc) list }
+
+type step =
+| Lookup of nat * n
+| Generate of nat
+| Insert of nat
+
+type 'plan event =
+| Ret of nat * n * 'plan
+
+val init : 'a1 sysstate
+
+val do_lookup : nat -> n -> 'a1 sysstate -> 'a1 sysstate * 'a1 event list
+
+val do_generate :
+  (n -> 'a1) -> nat -> 'a1 sysstate -> 'a1 sysstate * 'a1 event list
+
+val evict : nat -> (n * 'a1) list -> n list -> (n * 'a1) list * n list
+
+val do_insert : nat -> nat -> 'a1 sysstate -> 'a1 sysstate * 'a1 event list
+
+val exec :
+  (n -> 'a1) -> nat -> step -> 'a1 sysstate -> 'a1 sysstate * 'a1 event list
+
+val insert_sorted : n -> n list -> n list
+
+val sort_N : n list -> n list
+
+val decode_step : ((n * n) * n) -> step option
+
+val observe : n sysstate -> n event list -> n list
+
+val cache_trace_from : nat -> ((n * n) * n) list -> n sysstate -> n list list
+
+val cache_trace : nat -> ((n * n) * n) list -> n list list
+
 val pcode : pclass -> n
 
 val enc1 : n outcome -> n list
 
+val encl : n list outcome -> n list
+
 val arg : n list -> nat -> n
 
 val run_octet : n -> n list -> n list
+
+val b2n : bool -> n
+
+val enc_pid : (n * n) outcome -> n list
+
+val oti_list : oti -> n list
+
+val enc_oti : oti outcome -> n list
+
+val triples : n list -> ((n * n) * n) list
+
+val run_wire : n -> n list -> n list
 
 val run : n -> n list -> n list
